@@ -106,7 +106,9 @@ impl<T: RealNumber, M: Matrix<T>> InteriorPointOptimizer<T, M> {
             let gap = pobj - dobj;
 
             // STOPPING CRITERION
-            if gap / dobj < tol {
+            // (a gap of zero is optimal whatever the dual objective: for a constant target both objectives are
+            // zero at w = 0 and the relative gap is 0/0)
+            if gap / dobj < tol || gap <= T::zero() {
                 break;
             }
 
